@@ -819,7 +819,14 @@ fn assemble(tool: Tool, consts_src: &str, scripts: &[&BuiltScript], timelines: &
             s += consts_src;
             for (k, b) in scripts.iter().enumerate() {
                 if k > 0 && entry_breaks.contains(&k) { s += &ANM_ENTRY.replace('N', &k.to_string()); }
-                s += &script_text(b);
+                // explicit script numbers (msg_table doubles as the ANM numbering variant): the number is the id stored in the
+                // file's script table, NOT the script's position; debug info and script-name consts go by position
+                let text = script_text(b);
+                s += &match msg_table {
+                    1 => text.replacen("script ", &format!("script {} ", scripts.len() - 1 - k), 1),
+                    2 => text.replacen("script ", &format!("script {} ", 4 * k + 3), 1),
+                    _ => text,
+                };
             }
         },
         Kind::Std => {
@@ -932,7 +939,8 @@ fn gen_body_case(ch: &mut Chooser, tool: Tool, lang: Lang, sk: &[Sk], sk_text: &
     }
     let srefs: Vec<&BuiltScript> = scripts.iter().collect();
     let trefs: Vec<&BuiltScript> = timelines.iter().collect();
-    let src = assemble(tool, "", &srefs, &trefs, &entry_breaks, msg_table);
+    let variant = if tool.kind == Kind::Anm { ch.pick_free(3) as u32 } else { msg_table };
+    let src = assemble(tool, "", &srefs, &trefs, &entry_breaks, variant);
     let consts = auto_consts(tool, &srefs, &entry_breaks);
     let mut models: Vec<ScriptM> = vec![];
     // debug info order = compile order; the model order is irrelevant (matched by name)
